@@ -116,13 +116,43 @@ theorem processIBTP_rec (l : Led) (i : Ibtp) (ck : Checked) (c : StatusChange) (
       · exact setDestIC_rec _ _ _ _ _ _
     · rfl
 
-/-- what a begun request may do to the record of `t`: nothing, or (when `t` is the request's own id)
-write a fresh BEGIN / BEGIN_FAILURE record -/
+/-- what a begun request may do to the record of `t`: nothing; or (when `t` is the request's own id) write a fresh BEGIN /
+BEGIN_FAILURE record — inside one hub whatever was there, between two hubs only where there was none; or, between two hubs and
+on an existing record, one step of the transaction state machine by the event the `Extra` field names (the destination hub's
+notice) -/
 theorem beginTransaction_rec {env : Env} {l : Led} {i : Ibtp} {ck : Checked} {r : Led × StatusChange}
     (e : beginTransaction env l i ck = .ok r) (t : TxId) :
-    r.1.getS (.txRec t) = l.getS (.txRec t) ∨ t = { frm := ck.src, to := ck.dst, index := i.index } := by
+    r.1.getS (.txRec t) = l.getS (.txRec t) ∨
+    (t = { frm := ck.src, to := ck.dst, index := i.index } ∧ (ck.src.bxh = ck.dst.bxh ∨ l.getS (.txRec t) = none)) ∨
+    (t = { frm := ck.src, to := ck.dst, index := i.index } ∧ ∃ rec st', l.getS (.txRec t) = some (.trec rec) ∧
+      txFsmStep rec.status (noticeEvent i.ext) = some st' ∧ r.1.getS (.txRec t) = some (.trec { rec with status := st' })) := by
   by_cases ht : t = { frm := ck.src, to := ck.dst, index := i.index }
-  · exact Or.inr ht
+  · unfold beginTransaction at e
+    simp only at e
+    split at e
+    · split at e
+      · cases e
+      · rename_i r0 h0
+        cases e
+        unfold tmBeginInter at h0
+        split at h0
+        · rename_i rec hrec
+          split at h0
+          · cases h0
+          · split at h0
+            · cases h0
+            · rename_i st' hst
+              cases h0
+              right; right
+              subst ht
+              exact ⟨rfl, rec, st', hrec, hst, by simp⟩
+        · cases h0
+        · rename_i hnone
+          right; left
+          exact ⟨ht, Or.inr (by subst ht; exact hnone)⟩
+    · rename_i hb
+      right; left
+      exact ⟨ht, Or.inl (by simpa using hb)⟩
   · left
     have hne : ¬ ({ frm := ck.src, to := ck.dst, index := i.index } : TxId) = t := fun h => ht h.symm
     unfold beginTransaction at e
@@ -134,6 +164,11 @@ theorem beginTransaction_rec {env : Env} {l : Led} {i : Ibtp} {ck : Checked} {r 
         cases e
         unfold tmBeginInter at h0
         split at h0
+        · split at h0
+          · cases h0
+          · split at h0
+            · cases h0
+            · cases h0; simp [hne]
         · cases h0
         · cases h0; simp [hne]
     · split at e
@@ -186,14 +221,15 @@ def recStatus (l : Led) (t : TxId) : Option Status :=
 theorem recStatus_congr {l l' : Led} {t : TxId} (h : l'.getS (.txRec t) = l.getS (.txRec t)) : recStatus l' t = recStatus l t := by
   unfold recStatus; rw [h]
 
-/-- **one handled IBTP and one record**: the record of `t` is untouched, or the IBTP is a request with
-exactly the id `t`, or it is a receipt for `t` and the status made one FSM step -/
+/-- **one handled IBTP and one record**: the record of `t` is untouched; or the IBTP is a request (no notice, or none that
+found a record) with exactly the id `t`; or the status made one step of the state machine — by the event of a receipt, or by
+the event the destination hub's notice names -/
 theorem handleIBTP_rec {env : Env} {l : Led} {i : Ibtp} {ck : Checked} {r : Led × String}
     (hck : checkIBTP env l i = .ok ck) (h : handleIBTP env l i = .ok r) (t : TxId) :
     r.1.getS (.txRec t) = l.getS (.txRec t) ∨
-    (i.typ.isRequest = true ∧ t = { frm := ck.src, to := ck.dst, index := i.index }) ∨
-    (i.typ.isRequest = false ∧ ∃ st st', recStatus l t = some st ∧ txFsmStep st (receiptEvent i.typ.toNat) = some st' ∧
-      recStatus r.1 t = some st') := by
+    (i.typ.isRequest = true ∧ t = { frm := ck.src, to := ck.dst, index := i.index } ∧
+      (ck.notice = false ∨ l.getS (.txRec t) = none)) ∨
+    (∃ ev st st', recStatus l t = some st ∧ txFsmStep st ev = some st' ∧ recStatus r.1 t = some st') := by
   unfold handleIBTP at h
   simp only [hck] at h
   split at h
@@ -217,19 +253,29 @@ theorem handleIBTP_rec {env : Env} {l : Led} {i : Ibtp} {ck : Checked} {r : Led 
       · cases h; rw [hp, hn]
     by_cases hreq : i.typ.isRequest = true
     · simp only [hreq, if_true] at hr
-      rcases beginTransaction_rec hr t with h1 | h1
+      rcases beginTransaction_rec hr t with h1 | ⟨ht, h1⟩ | ⟨ht, rec, st', h2, h3, h4⟩
       · left; rw [hafter, h1]
-      · right; left; exact ⟨hreq, h1⟩
+      · right; left
+        refine ⟨hreq, ht, ?_⟩
+        rcases h1 with h1 | h1
+        · exact Or.inl (checkIBTP_local_no_notice hck h1)
+        · exact Or.inr h1
+      · right; right
+        refine ⟨noticeEvent i.ext, rec.status, st', ?_, h3, ?_⟩
+        · unfold recStatus; rw [h2]
+        · unfold recStatus; rw [hafter, h4]
     · simp only [hreq, if_false, Bool.false_eq_true] at hr
       split at hr
+      · split at hr
+        · cases hr
+        · rename_i y hy
+          cases hr
+          rcases tmReport_rec hy t with h1 | ⟨ht, rec, st', h2, h3, h4⟩
+          · left; rw [hafter, h1]
+          · right; right
+            refine ⟨receiptEvent i.typ.toNat, rec.status, st', ?_, h3, ?_⟩
+            · subst ht; unfold recStatus; rw [h2]
+            · subst ht; unfold recStatus; rw [hafter, h4]
       · cases hr
-      · rename_i y hy
-        cases hr
-        rcases tmReport_rec hy t with h1 | ⟨ht, rec, st', h2, h3, h4⟩
-        · left; rw [hafter, h1]
-        · right; right
-          refine ⟨by simpa using hreq, rec.status, st', ?_, h3, ?_⟩
-          · subst ht; unfold recStatus; rw [h2]
-          · subst ht; unfold recStatus; rw [hafter, h4]
 
 end Bxh.Exec
